@@ -281,7 +281,15 @@ func (w *world) uSpecs() []*opSpec {
 			p("push1/None", []any{chainx.OpLoadScript, push1, 0, []any{}}),
 		),
 		one("try-throw", p("caught", []any{chainx.OpTry, []any{[]any{chainx.OpThrow}}, []any{put}}),
-			p("callee-throws", []any{chainx.OpTry, []any{[]any{chainx.OpRun, ub, 15, []any{put, []any{chainx.OpNotify, 4}, []any{chainx.OpThrow}}}}, []any{}})),
+			p("callee-throws", []any{chainx.OpTry, []any{[]any{chainx.OpRun, ub, 15, []any{put, []any{chainx.OpNotify, 4}, []any{chainx.OpThrow}}}}, []any{}}),
+			// the callee returns normally inside the caller's try block: its private storage layer is committed
+			p("callee-commits", []any{chainx.OpTry, []any{[]any{chainx.OpRun, ub, 15, []any{put, []any{chainx.OpNotify, 4}}}}, []any{}}),
+			p("callee-commits-then-caller-throws", []any{chainx.OpTry, []any{[]any{chainx.OpRun, ub, 15, []any{put}}, []any{chainx.OpThrow}}, []any{[]any{chainx.OpNotify, 9}}}),
+			p("callee-commits/None", []any{chainx.OpTry, []any{[]any{chainx.OpRun, ub, 0, []any{put}}}, []any{}}),
+			p("nested-callee-throws-inner-commits", []any{chainx.OpTry, []any{[]any{chainx.OpRun, ub, 15, []any{[]any{chainx.OpRun, w.UA.BytesBE(), 15, []any{put}}, []any{chainx.OpThrow}}}}, []any{}}),
+			// a payment callback (called by the native token) throws inside the payer's try block
+			p("payment-callback-throws", []any{chainx.OpTry, []any{[]any{chainx.OpCall, gasH, "transfer", 15, []any{w.UA.BytesBE(), ub, 1, []any{put, []any{chainx.OpThrow}}}}}, []any{}}),
+			p("payment-callback-commits", []any{chainx.OpTry, []any{[]any{chainx.OpCall, gasH, "transfer", 15, []any{w.UA.BytesBE(), ub, 1, []any{put, []any{chainx.OpNotify, 6}}}}}, []any{}})),
 	}
 }
 
